@@ -43,6 +43,25 @@ def value_for(kind, msg, name):
             return None
     if kind == "false":
         return False
+    if kind in ("retyped", "retyped2"):
+        # the SAME content as another type (a defensive-copy or normalising path may sit in front
+        # of the immutability test): bytes <-> bytearray / memoryview, int <-> float / str, ...
+        try:
+            cur = getattr(msg, name)
+        except AttributeError:
+            cur = b"\x3e\xd0"
+        first = kind == "retyped"
+        if isinstance(cur, (bytes, bytearray)):
+            return bytearray(cur) if first else memoryview(bytes(cur))
+        if isinstance(cur, bool):
+            return int(cur) if first else str(cur)
+        if isinstance(cur, int):
+            return (float(cur) if abs(cur) < 2 ** 1000 else complex(0, 1)) if first else str(cur)
+        if isinstance(cur, float):
+            return str(cur) if first else int(cur)
+        if isinstance(cur, str):
+            return cur.encode() if first else list(cur)
+        return [cur] if first else (cur,)
     return "x"
 
 
@@ -186,7 +205,8 @@ def _work(item):
     names = _names(it["payload"])
     if names is None:
         return st
-    kinds = ("zero", "same", "false", "iadd") if tier == "quick" else ("zero", "same", "false", "str", "iadd")
+    kinds = ("zero", "same", "false", "iadd", "retyped", "retyped2") if tier == "quick" else \
+        ("zero", "same", "false", "str", "iadd", "retyped", "retyped2")
     k = 0
     for name in names:
         for kind in kinds:
@@ -197,7 +217,7 @@ def _work(item):
     pubs = [n for n in names if not n.startswith("_")][:2]
     for source in ("parse", "file", "socket", "socket-seg", "copy", "deepcopy", "pickle", "pickle0"):
         for name in ["payload", "_payload", "ZZ_new_public"] + pubs:
-            for kind in ("zero", "iadd"):
+            for kind in ("zero", "iadd", "retyped"):
                 case = {"name": it["name"], "payload": it["payload"], "source": source,
                         "attempts": [[name, kind]]}
                 st.add(case, judge(case, reuse=True))
